@@ -8,7 +8,8 @@ EXPLAIN = ('For Address-typed entry parameters a: every subject-position use of 
            'ITS deploy / deploy-remote / transfer effects, operators execute forward, example send calls. '
            'Generic sweep (G) over all 99 entry points: any token-client transfer/burn whose `from` operand is an entry '
            'parameter and any storage debit of Balance(parameter) must be guarded by that parameter\'s auth or by an '
-           'allowance spend of the same owner under the spender\'s auth.')
+           'allowance spend of the same owner under the spender\'s auth; every token balance write on a parameter that has not '
+           'authorised lies behind 0 <= amount (a credit cannot be a debit in disguise).')
 NOT_DECIDED = 'host auth-tree semantics (T2); callee-side checks of configured callees (gas service, gateway) are decided in their own contracts.'
 ASSUME = ['T1', 'T2', 'T6', 'T8']
 
@@ -146,6 +147,35 @@ def check(P, rep):
             rep.check(ok, 'C07.G', '%s::%s:%s:%s' % (cn, en, e.kind, fmt(subj)),
                       'debit/transfer/burn of parameter %s is must-guarded by its require_auth (or an allowance spend under the spender\'s auth)' % fmt(subj),
                       esite(g, e), e.describe()[:200], w)
+    # a credit is not a debit in disguise: every balance write on a key named by an entry parameter that has NOT authorised the
+    # call lies behind `0 <= amount` for the amount it moves (a negative "mint"/"transfer" to X would debit X without X's auth)
+    ncred = 0
+    for cn, en in P.all_entries():
+        if cn != 'interchain_token':
+            continue
+        g = P.graph(cn, en)
+        root = g.ctxs[0]
+        params = [g.P(i) for i in range(1, len(g.abi_params()) + 1)]
+        amts = [('param', g.param_name(root, l)) for l in range(1, root.body['argc'] + 1) if root.body['locals'][l] == 'i128']
+        for e in state_effects(g):
+            if e.kind not in ('sw', 'supd') or key_variant(e.key)[0] != 'Balance':
+                continue
+            k0 = core(key_variant(e.key)[1][0])
+            if k0 not in params:
+                continue
+            ok, _, w = mg(g, [e.node], auth_of(g, k0))
+            if ok:
+                continue           # the holder authorised: covered by the subject rules above
+            ncred += 1
+            okc = False
+            for a in amts:
+                nonneg = guard_sel(g, lambda c_: c_[0] == 'cmp' and c_[1] == 'le' and const_int(core(c_[2])) == 0 and core(c_[3]) == a)
+                if nonneg and mg(g, [e.node], (), edges(nonneg))[0]:
+                    okc = True
+            rep.check(okc, 'C07.G', '%s::%s:credit-nonneg:%s' % (cn, en, fmt(k0)),
+                      'balance write on %s, which has not authorised the call, lies behind 0 <= amount (it can only be a credit)' % fmt(k0),
+                      esite(g, e), e.describe()[:160], w)
+    rep.floor('unauthorised-holder balance writes (credits)', ncred, 4)
     rep.floor('generic sweep subject sinks', swept, 6)
     rep.count('table_instances', n[0])
 
